@@ -136,7 +136,11 @@ def execute(c):
             lo, hi = b[c["idx"]]
             b2 = M.Bin1D.from_sample_bin(c["idx"], (lo, hi)) if dflt else M.Bin1D.from_sample_bin(c["idx"], (lo, hi), c["dir"])
             pts = []
-            for x in range(c["o"] - 3 * c["sz"], c["o"] + 3 * c["sz"] + 1):
+            xs = range(c["o"] - 3 * c["sz"], c["o"] + 3 * c["sz"] + 1)
+            if c["sz"] > 16:
+                # big bins: every bin edge over +-16 bins, its two neighbours, and a coarse sweep
+                xs = sorted({c["o"] + k * c["sz"] + d for k in range(-16, 17) for d in (-1, 0, 1)} | set(range(c["o"] - 2 * c["sz"], c["o"] + 2 * c["sz"], 37)))
+            for x in xs:
                 i = b.bin(x / 4)
                 l2, h2 = b[i]
                 pts.append({"x": x, "b": int(i), "lo": _lat(l2, 4), "hi": _lat(h2, 4), "b2": int(b2.bin(x / 4))})
